@@ -253,6 +253,16 @@ func Run(d *fw.Driver, res *fw.Result, seed int64, thorough bool) error {
 	if thorough {
 		reps = 3
 	}
+	// both clients (two servers, two push addresses) exist before the first call: each client's reader
+	// parameters must keep going to its own server whatever other clients the process constructs
+	for _, tr := range []string{"ws", "http"} {
+		if _, err := get(tr); err != nil {
+			return err
+		}
+	}
+	if err := RetryOutage(d, res); err != nil {
+		return err
+	}
 	for rep := 0; rep < reps; rep++ {
 		for _, tr := range []string{"ws", "http"} {
 			for _, ln := range lengths {
